@@ -1,10 +1,11 @@
 /-
-Towards lexer locality (the step between `C19.tokens_independent` and the text-level statement for
-texts in arbitrary spelling): on a text that ends with a line feed a scanner has decided what it
-returns before it could look past that line feed, so appending more input does not change it.
-Proved here for the building blocks — runs of bytes (`spanB_lf`), rune decoding (`decodeRune_lf`),
-skipping what a mode ignores (`skipR_lf`), comments (`scanComment_lf`), the stream/function
-matcher (`matchSF_lf`) and the wait-bit matcher (`matchW_lf`); the remaining scanners and the induction over the steps are not done.
+Lexer locality, part 1 (the step between `C19.tokens_independent` and the text-level statement
+`C19.texts_independent` for texts in arbitrary spelling): on a text that ends with a line feed a
+scanner has decided what it returns before it could look past that line feed, so appending more
+input does not change it. Here: runs of bytes (`spanB_lf`), rune decoding (`decodeRune_lf`),
+skipping what a mode ignores (`skipR_lf`), comments (`scanComment_lf`), the stream/function matcher
+(`matchSF_lf`) and the wait-bit matcher (`matchW_lf`). The remaining scanners are in
+Proofs/LexScan, the induction over the steps in Proofs/LexConcat.
 -/
 import SecsModel.Proofs.LexLayout
 import SecsModel.Proofs.NameRunes
